@@ -108,24 +108,32 @@ Print Assumptions refuted_not_accepted.
 
 (* --- history independence ------------------------------------------------------ *)
 
-(* If a read leaves the state (cache) as it was — which is what acceptance of
-   __getitem__ gives for every cached object — then after ANY sequence of
-   earlier reads `pre`, reading index i returns exactly what reading i on the
-   initial state returns. *)
-Theorem history_independent : forall (S A : Type) (read : S -> nat -> S * A),
+(* GENERIC lemma over an arbitrary state type and reader (tied to no translated program; kept as the
+   abstract shape of the argument, review finding 3): if a read leaves the state as it was, then after
+   ANY sequence of earlier reads `pre`, reading index i returns what reading i on the initial state
+   returns.  The statement about the regenerated programs is `same_index_same_sample` below. *)
+Theorem history_independent_generic : forall (S A : Type) (read : S -> nat -> S * A),
   (forall s i, fst (read s i) = s) ->
   forall pre post s i,
   nth_error (snd (run_hist S A read s (pre ++ i :: post))) (length pre) = Some (snd (read s i)).
 Proof. exact history_independent_l. Qed.
-Print Assumptions history_independent.
+Print Assumptions history_independent_generic.
 
 (* --- value level: centroids, "missing stays missing" (F5) ----------------------- *)
 
-(* generate_centroids as the code is (fixed = false: the bbox midpoint is
-   written through the anchor view into the caller's keypoints) and with the
-   proposed one-line repair (fixed = true). *)
+(* generate_centroids on the PINNED tree, before fix 563a1fb (fixed = false: the bbox midpoint is
+   written through the anchor view into the caller's keypoints) and on the CURRENT tree (/repo HEAD,
+   fixed = true: the anchor slice is cloned).  No code implements fixed = false any more: the
+   `_refuted` / `_partial` theorems document the historic defect F5 and keep the check able to report a
+   regression (the harness detects the variant by replaying the corpus witness).
+   Domain (review finding 2): the code raises IndexError when the anchor is not a node; `gen_centroid`
+   is total (bbox midpoint there), so the statements below carry `anchor_domain anchor (length inst)`.
 
-(* full statement, REFUTED for the code as it is: a missing anchor keypoint of
+   `generate_centroids_preserves_input_fixed` is a `_def` theorem (review finding 5): gen_centroid true
+   returns `inst` by definition; what carries the claim for the code is the per-run `pure_generate_centroids`
+   and the `run_centroid` comparison of the caller's keypoints after the call. *)
+
+(* full statement, REFUTED for the pinned tree (before fix 563a1fb): a missing anchor keypoint of
    a non-empty instance is overwritten in the caller's tensor *)
 Theorem generate_centroids_preserves_input_refuted :
   exists anchor inst, snd (gen_centroid false anchor inst) <> inst.
@@ -138,7 +146,7 @@ Theorem missing_stays_missing_refuted :
 Proof. exact missing_stays_missing_unfixed_refuted. Qed.
 Print Assumptions missing_stays_missing_refuted.
 
-(* strongest true statement for the code as it is: outside the selector
+(* strongest true statement for the pinned tree (before fix 563a1fb): outside the selector
    (anchor given, anchor keypoint missing, instance not empty) the input is
    untouched *)
 Theorem generate_centroids_preserves_input_partial : forall anchor inst,
@@ -146,10 +154,11 @@ Theorem generate_centroids_preserves_input_partial : forall anchor inst,
 Proof. exact gen_centroid_unfixed_partial. Qed.
 Print Assumptions generate_centroids_preserves_input_partial.
 
-(* with the repair: for every anchor choice and every instance *)
+(* current tree (fix 563a1fb): for every anchor choice inside the domain and every instance  [_def] *)
 Theorem generate_centroids_preserves_input_fixed : forall anchor inst,
+  anchor_domain anchor (length inst) = true ->
   snd (gen_centroid true anchor inst) = inst.
-Proof. exact gen_centroid_fixed_preserves. Qed.
+Proof. exact gen_centroid_fixed_preserves_dom_l. Qed.
 Print Assumptions generate_centroids_preserves_input_fixed.
 
 (* the centroid itself is the same in both versions: the anchor if labelled,
@@ -160,14 +169,18 @@ Proof. exact gen_centroid_value_same. Qed.
 Print Assumptions centroid_value_same.
 
 Theorem centroid_missing_iff_empty : forall fixed anchor inst,
-  fst (gen_centroid fixed anchor inst) = None <-> all_missing inst = true.
-Proof. exact centroid_missing_iff_empty_l. Qed.
+  anchor_domain anchor (length inst) = true ->
+  (fst (gen_centroid fixed anchor inst) = None <-> all_missing inst = true).
+Proof. exact centroid_missing_iff_empty_dom_l. Qed.
 Print Assumptions centroid_missing_iff_empty.
 
 (* missing stays missing through the derived samples (scaling, crop offset):
    a keypoint that is None in the labels is None in `instances` / `instance`
    of the sample, for every dataset flavour, scale, offset and anchor, when
-   generate_centroids does not write (fixed) or outside the selector *)
+   generate_centroids does not write (fixed) or outside the selector.
+   `sample_instance` is related to the evaluated `centered_sample` by
+   `centered_sample_is_sample_instance` below (review finding 4); the on-path forms are
+   `centered_sample_missing` / `centered_sample_unfixed_refuted`. *)
 Theorem missing_stays_missing_fixed : forall anchor scale off (inst : instance) k,
   nth k inst None = None ->
   nth k (sample_instance true anchor scale off inst) None = None.
@@ -277,6 +290,42 @@ Theorem same_index_same_sample : forall fs, Forall (fun f => fn_accepted f = tru
 Proof. exact same_index_same_sample_l. Qed.
 Print Assumptions same_index_same_sample.
 
+(* review finding 3: contract (1) holds for the script-guided interpreter `rd_of` (History.v) on EVERY
+   program, so for any accepted f only locality of the reader remains a hypothesis ... *)
+Theorem same_index_same_sample_srun : forall fs, Forall (fun f => fn_accepted f = true) fs ->
+  forall f, In f fs -> forall fuel,
+  (forall h extra args n, wf_heap h -> wf_heap (h ++ extra) -> args_ok args h ->
+     value n (snd (rd_of fuel (f_body f) (f_ret f) (h ++ extra) args))
+             (fst (rd_of fuel (f_body f) (f_ret f) (h ++ extra) args)) =
+     value n (snd (rd_of fuel (f_body f) (f_ret f) h args)) (fst (rd_of fuel (f_body f) (f_ret f) h args))) ->
+  forall h pre args n, wf_heap h -> Forall (fun a => args_ok a h) pre -> args_ok args h ->
+  let h' := run_reads (rd_of fuel (f_body f) (f_ret f)) h pre in
+  value n (snd (rd_of fuel (f_body f) (f_ret f) h' args)) (fst (rd_of fuel (f_body f) (f_ret f) h' args)) =
+  value n (snd (rd_of fuel (f_body f) (f_ret f) h args)) (fst (rd_of fuel (f_body f) (f_ret f) h args)).
+Proof. exact same_index_same_sample_srun_l. Qed.
+Print Assumptions same_index_same_sample_srun.
+
+(* ... and BOTH contracts are satisfiable: for the accepted program `x = args[0]; return {"k": x}` (a
+   reader that allocates and whose result refers to a pre-existing object) the conclusion holds
+   unconditionally after any history of reads.  For the regenerated `__getitem__` programs locality is
+   NOT proved: the clause "same index, same sample" rests on history_pure (the cache and everything
+   reachable from it is unchanged by any history) + the bit-identical re-read oracle. *)
+Theorem ex_reader_same_index : forall h pre args n,
+  wf_heap h -> Forall (fun a => args_ok a h) pre -> args_ok args h ->
+  let rd := rd_of 5 p_reader_ex 1%N in
+  let h' := run_reads rd h pre in
+  value n (snd (rd h' args)) (fst (rd h' args)) = value n (snd (rd h args)) (fst (rd h args)).
+Proof. exact ex_reader_same_index_l. Qed.
+Print Assumptions ex_reader_same_index.
+
+Example ex_reader_accepted : fn_accepted f_reader_ex = true.
+Proof. exact f_reader_ex_accepted_l. Qed.
+Example ex_reader_allocates :
+  run_reads (rd_of 5 p_reader_ex 1%N) [mkcell 0%N 3 []] [[0]; [0]] <> [mkcell 0%N 3 []] /\
+  value 2 (snd (rd_of 5 p_reader_ex 1%N [mkcell 0%N 3 []] [0])) (fst (rd_of 5 p_reader_ex 1%N [mkcell 0%N 3 []] [0]))
+  = Node 0 [Node 3 []].
+Proof. exact ex_reader_allocates_l. Qed.
+
 (* non-vacuity, and the shallow-copy pitfall: with
      sample = self.cache[index].copy(); sample["instance"] -= point
    the semantics has an execution after which the value of `self` (dataset ->
@@ -316,29 +365,145 @@ Theorem rebind_no_users : forall uo fr, existsb li_user fr = false -> rebind uo 
 Proof. exact rebind_no_users_l. Qed.
 Print Assumptions rebind_no_users.
 
+(* --- F110: what the CALLER'S labels hold after a dataset was built over them ----------------
+
+   Property, first sentence: "Building and reading training data never changes the labels."
+   `lf.instances = lf.user_instances` (providers.process_lf, BaseDataset._get_lf_idx_list,
+   CenteredInstanceDataset._get_instance_idx_list) is a store into the caller's LabeledFrame:
+   `labels_after false` (pinned and current tree, finding F110 not repaired) is `map (rebind uo)`,
+   `labels_after true` is proposed_fixes/C11_F110.diff.  The harness detects the variant by replaying
+   corpus/C11/F110_*.json and compares the instance lists of the real label objects after
+   construction with this model (run_ds2 / run_frame_after). *)
+
+(* full statement, REFUTED for the current tree: a predicted instance next to a user instance is
+   dropped from the caller's frame *)
+Theorem labels_unchanged_refuted : exists uo frames, labels_after false uo frames <> frames.
+Proof. exact labels_unchanged_refuted_l. Qed.
+Print Assumptions labels_unchanged_refuted.
+
+(* the selector is EXACT: the store changes a frame iff user_instances_only and the frame holds both a
+   user and a predicted instance; then the frame loses at least one (predicted) instance *)
+Theorem rebind_changes_iff : forall uo fr, rebind uo fr <> fr <-> selector_F110 uo fr = true.
+Proof. exact rebind_changes_iff_l. Qed.
+Print Assumptions rebind_changes_iff.
+
+Theorem rebind_drops : forall uo fr, selector_F110 uo fr = true ->
+  (length (rebind uo fr) < length fr)%nat /\
+  (forall li, In li (rebind uo fr) -> li_user li = true) /\
+  exists li, In li fr /\ li_user li = false /\ ~ In li (rebind uo fr).
+Proof. exact rebind_drops_l. Qed.
+Print Assumptions rebind_drops.
+
+Theorem labels_changed_iff : forall uo frames,
+  labels_after false uo frames <> frames <-> exists fr, In fr frames /\ selector_F110 uo fr = true.
+Proof. exact labels_changed_iff_l. Qed.
+Print Assumptions labels_changed_iff.
+
+(* strongest true statement for the current tree: outside the selector the labels are untouched *)
+Theorem labels_unchanged_partial : forall uo frames,
+  (forall fr, In fr frames -> selector_F110 uo fr = false) -> labels_after false uo frames = frames.
+Proof. exact labels_unchanged_partial_l. Qed.
+Print Assumptions labels_unchanged_partial.
+
+(* with the proposed repair [_def: labels_after true is the identity by definition; the claim for the
+   code is the per-run acceptance of the regenerated programs + the instance-list snapshot] *)
+Theorem labels_unchanged_fixed : forall uo frames, labels_after true uo frames = frames.
+Proof. exact labels_unchanged_fixed_l. Qed.
+Print Assumptions labels_unchanged_fixed.
+
+(* consequence inside the property ("sample is a function of labels and index"): a SECOND dataset built
+   over the same label objects.  It selects the same frames and instances (the filter is idempotent) ... *)
+Theorem second_dataset_same_selection : forall b uo frames,
+  ds_frames uo (labels_after b uo frames) = ds_frames uo frames.
+Proof. exact ds_frames_after_l. Qed.
+Print Assumptions second_dataset_same_selection.
+
+Theorem second_dataset_centered_same : forall b fixed anchor uo s frames k,
+  centered_sample fixed anchor uo s (labels_after b uo frames) k = centered_sample fixed anchor uo s frames k.
+Proof. exact second_dataset_centered_same_l. Qed.
+Print Assumptions second_dataset_centered_same.
+
+(* ... but max_instances is recomputed over the altered labels and can only shrink: REFUTED that the
+   frame-level samples are the same (fewer all-NaN padding rows) *)
+Theorem second_dataset_max_instances_le : forall b uo frames,
+  (max_instances (labels_after b uo frames) <= max_instances frames)%nat.
+Proof. exact max_instances_after_le_l. Qed.
+Print Assumptions second_dataset_max_instances_le.
+
+Theorem second_dataset_frame_sample_refuted : exists uo s frames k,
+  frame_sample uo s (labels_after false uo frames) k <> frame_sample uo s frames k.
+Proof. exact second_dataset_frame_sample_refuted_l. Qed.
+Print Assumptions second_dataset_frame_sample_refuted.
+
+(* strongest true statements: equal samples when max_instances is unchanged (in particular outside the
+   selector, and always with the repair); in general same num_instances, same label rows, the rest padding *)
+Theorem second_dataset_frame_sample_partial : forall b uo s frames k,
+  max_instances (labels_after b uo frames) = max_instances frames ->
+  frame_sample uo s (labels_after b uo frames) k = frame_sample uo s frames k.
+Proof. exact second_dataset_frame_sample_partial_l. Qed.
+Print Assumptions second_dataset_frame_sample_partial.
+
+Theorem second_dataset_frame_rows : forall b uo s frames k rows1 n1 rows2 n2,
+  frame_sample uo s frames k = Some (rows1, n1) ->
+  frame_sample uo s (labels_after b uo frames) k = Some (rows2, n2) ->
+  n2 = n1 /\ (forall j, (j < n1)%nat -> nth_error rows2 j = nth_error rows1 j) /\
+  (forall j row, (n1 <= j)%nat -> nth_error rows2 j = Some row -> all_missing row = true).
+Proof. exact second_dataset_frame_rows_l. Qed.
+Print Assumptions second_dataset_frame_rows.
+
+Example ex_selector_F110 :
+  selector_F110 true [mklinst false [None]; mklinst true [None]] = true /\
+  selector_F110 true [mklinst true [None]; mklinst true [None]] = false /\
+  selector_F110 true [mklinst false [None]] = false /\
+  selector_F110 false [mklinst false [None]; mklinst true [None]] = false.
+Proof. repeat split; reflexivity. Qed.
+
 (* no instance is invented *)
 Theorem considered_from_labels : forall uo fr inst, In inst (considered uo fr) ->
   exists li, In li fr /\ li_pts li = inst.
 Proof. exact considered_from_labels_l. Qed.
 Print Assumptions considered_from_labels.
 
-(* process_lf: num_instances counts the non-empty considered instances; the first
+(* Domain (review finding 2): `providers.process_lf` raises (np.stack of an empty list) on a frame
+   without a non-empty considered instance; Dataset.process_lf is total.  The theorems carry
+   `lf_domain uo fr = true`; the generators also produce frames outside it and the harness checks that
+   the code raises exactly there (run_chunk_dom).
+   process_lf: num_instances counts the non-empty considered instances; the first
    num_instances rows are those instances in label order (an empty instance in the
    middle of the frame is skipped, not kept); every further row is NaN padding;
    `instances` has max_instances rows *)
-Theorem process_lf_num : forall uo maxi fr,
-  snd (process_lf uo maxi fr) = length (filter nonempty (considered uo fr)).
-Proof. exact process_lf_num_l. Qed.
+Theorem process_lf_num : forall uo maxi fr, lf_domain uo fr = true ->
+  snd (process_lf uo maxi fr) = length (filter nonempty (considered uo fr)) /\
+  (0 < snd (process_lf uo maxi fr))%nat.
+Proof. exact process_lf_num_dom_l. Qed.
 Print Assumptions process_lf_num.
 
-Theorem process_lf_row : forall uo maxi fr j, (j < snd (process_lf uo maxi fr))%nat ->
+Theorem process_lf_row : forall uo maxi fr j, lf_domain uo fr = true ->
+  (j < snd (process_lf uo maxi fr))%nat ->
   nth_error (fst (process_lf uo maxi fr)) j = nth_error (filter nonempty (considered uo fr)) j.
-Proof. exact process_lf_row_l. Qed.
+Proof. exact process_lf_row_dom_l. Qed.
 Print Assumptions process_lf_row.
 
-Theorem process_lf_pad : forall uo maxi fr j row, (snd (process_lf uo maxi fr) <= j)%nat ->
-  nth_error (fst (process_lf uo maxi fr)) j = Some row -> all_missing row = true.
-Proof. exact process_lf_pad_l. Qed.
+(* a padding row is all-NaN and as wide as the first (non-empty) label row *)
+Theorem process_lf_pad : forall uo maxi fr j row, lf_domain uo fr = true ->
+  (snd (process_lf uo maxi fr) <= j)%nat ->
+  nth_error (fst (process_lf uo maxi fr)) j = Some row ->
+  all_missing row = true /\
+  exists r0, nth_error (fst (process_lf uo maxi fr)) 0 = Some r0 /\ nonempty r0 = true /\ length row = length r0.
+Proof. exact process_lf_pad_dom_l. Qed.
+
+(* what the TOTALISED definition returns where the code raises: model only, no code behaviour *)
+Theorem process_lf_outside_domain_model_only : forall uo maxi fr, lf_domain uo fr = false ->
+  process_lf uo maxi fr = (if Nat.eqb maxi 1 then [] else repeat [] (absdiff maxi 0), 0%nat).
+Proof. exact process_lf_outside_domain_model_only_l. Qed.
+Print Assumptions process_lf_outside_domain_model_only.
+
+(* the datasets call process_lf only inside its domain *)
+Theorem frame_sample_in_domain : forall uo frames k f,
+  nth_error (lf_idx_list (ds_frames uo frames)) k = Some f ->
+  lf_domain uo (rebind uo (nth f frames [])) = true.
+Proof. exact frame_sample_in_domain_l. Qed.
+Print Assumptions frame_sample_in_domain.
 Print Assumptions process_lf_pad.
 
 Theorem num_le_max_instances : forall uo frames fr, In fr frames ->
@@ -407,6 +572,34 @@ Theorem centered_sample_fixed : forall anchor uo s frames k c kept,
 Proof. exact centered_sample_fixed_l. Qed.
 Print Assumptions centered_sample_fixed.
 
+(* review finding 4: Values.sample_instance (the subject of the missing_stays_missing theorems) IS what the
+   evaluated centered_sample keeps, up to the crop offset ... *)
+Theorem centered_sample_is_sample_instance : forall fixed anchor uo s frames k c kept,
+  centered_sample fixed anchor uo s frames k = Some (c, kept) ->
+  exists inst, centered_source uo frames k = Some inst /\
+    c = fst (gen_centroid fixed anchor (map (scale_kp s) inst)) /\
+    forall off, sample_instance fixed anchor s off inst = map (shift_kp off) kept.
+Proof. exact centered_sample_is_sample_instance_l. Qed.
+Print Assumptions centered_sample_is_sample_instance.
+
+(* ... and missing stays missing ON the evaluated path for both variants of generate_centroids: the
+   current tree (fixed = true), or the pinned tree (before fix 563a1fb) outside selector_F5 *)
+Theorem centered_sample_missing : forall fixed anchor uo s frames k c kept inst,
+  centered_sample fixed anchor uo s frames k = Some (c, kept) ->
+  centered_source uo frames k = Some inst ->
+  fixed = true \/ selector_F5 anchor inst = false ->
+  kept = map (scale_kp s) inst /\
+  forall j, nth j kept None = None <-> nth j inst None = None.
+Proof. exact centered_sample_missing_l. Qed.
+Print Assumptions centered_sample_missing.
+
+Theorem centered_sample_unfixed_refuted : exists anchor uo s frames k c kept inst j,
+  centered_sample false anchor uo s frames k = Some (c, kept) /\
+  centered_source uo frames k = Some inst /\ selector_F5 anchor inst = true /\
+  nth j inst None = None /\ nth j kept None <> None.
+Proof. exact centered_sample_unfixed_refuted_l. Qed.
+Print Assumptions centered_sample_unfixed_refuted.
+
 (* lengths: one sample per non-empty considered instance; with user_instances_only
    and a user instance in every frame, per non-empty USER instance *)
 Theorem centered_len_considered : forall uo frames,
@@ -440,36 +633,42 @@ Proof. repeat split; reflexivity. Qed.
 (* ======================================================================== *)
 (* --- the litdata chunk functions (Chunks.v, round 3) ------------------------ *)
 
-(* what a chunk sample holds of the labelled frame, for every frame, user_instances_only,
+(* Domain (review finding 2): every chunk function starts with process_lf, which raises on a frame
+   without a non-empty considered instance; centroid_/centered_instance_data_chunks also raise when the
+   anchor is not a node.  Chunks.v is total, so the theorems carry `lf_domain` / `chunk_anchor_domain`
+   (both evaluated against the code per run through `run_chunk_dom`); `centroid_chunk_keeps_instances` is
+   a `_def`-style consequence of gen_centroid true (review finding 5).
+   what a chunk sample holds of the labelled frame, for every frame of the domain, user_instances_only,
    max_instances and eff_scale: num_instances counts the non-empty considered instances; row j
    below it is the j-th of them in label order, every keypoint multiplied by eff_scale and missing
    ones still missing (scaled_missing_iff); every further row is all-NaN padding *)
-Theorem chunk_base_rows : forall uo maxi eff fr,
+Theorem chunk_base_rows : forall uo maxi eff fr, lf_domain uo fr = true ->
   let labs := filter nonempty (considered uo fr) in
   let b := chunk_base uo maxi eff fr in
-  snd b = length labs /\
+  snd b = length labs /\ (0 < snd b)%nat /\
   (forall j lab, nth_error labs j = Some lab -> nth_error (fst b) j = Some (map (scale_kp eff) lab)) /\
   (forall j row, (snd b <= j)%nat -> nth_error (fst b) j = Some row -> all_missing row = true).
-Proof. exact chunk_base_rows_l. Qed.
+Proof. exact chunk_base_rows_dom_l. Qed.
 Print Assumptions chunk_base_rows.
 
 (* bottomup_data_chunks / single_instance_data_chunks (max_instances = 1): x eff_scale x scale *)
-Theorem bottomup_chunk_rows : forall uo maxi eff s fr,
+Theorem bottomup_chunk_rows : forall uo maxi eff s fr, lf_domain uo fr = true ->
   let labs := filter nonempty (considered uo fr) in
   let b := bottomup_chunk uo maxi eff s fr in
-  snd b = length labs /\
+  snd b = length labs /\ (0 < snd b)%nat /\
   (forall j lab, nth_error labs j = Some lab ->
      nth_error (fst b) j = Some (map (scale_kp s) (map (scale_kp eff) lab))) /\
   (forall j row, (snd b <= j)%nat -> nth_error (fst b) j = Some row -> all_missing row = true).
-Proof. exact bottomup_chunk_rows_l. Qed.
+Proof. exact bottomup_chunk_rows_dom_l. Qed.
 Print Assumptions bottomup_chunk_rows.
 
 (* centroid_data_chunks: computing the centroids and rescaling them leaves the `instances` of the
    sample exactly as chunk_base_rows describes them — for every anchor choice, every scale, with
    or without padding rows, anchors present or not (generate_centroids as repaired) *)
 Theorem centroid_chunk_keeps_instances : forall anchor uo maxi eff s fr,
+  lf_domain uo fr = true -> chunk_anchor_domain anchor uo fr = true ->
   fst (centroid_chunk true anchor uo maxi eff s fr) = chunk_base uo maxi eff fr.
-Proof. exact centroid_chunk_keeps_instances_l. Qed.
+Proof. exact centroid_chunk_keeps_instances_dom_l. Qed.
 Print Assumptions centroid_chunk_keeps_instances.
 
 Theorem centroid_chunk_unfixed_refuted : exists anchor uo maxi eff s fr,
@@ -480,29 +679,32 @@ Print Assumptions centroid_chunk_unfixed_refuted.
 (* centroid j = scale x centroid of row j (anchor keypoint, else bbox midpoint of the labelled
    keypoints); it is missing exactly for rows without a labelled keypoint (the padding) *)
 Theorem centroid_chunk_centroids : forall fixed anchor uo maxi eff s fr j,
+  lf_domain uo fr = true -> chunk_anchor_domain anchor uo fr = true ->
   nth_error (snd (centroid_chunk fixed anchor uo maxi eff s fr)) j =
   option_map (fun row => scale_kp s (fst (gen_centroid fixed anchor row)))
              (nth_error (fst (chunk_base uo maxi eff fr)) j).
-Proof. exact centroid_chunk_centroids_l. Qed.
+Proof. exact centroid_chunk_centroids_dom_l. Qed.
 Print Assumptions centroid_chunk_centroids.
 
 Theorem centroid_chunk_missing_iff : forall fixed anchor uo maxi eff s fr j row c,
+  lf_domain uo fr = true -> chunk_anchor_domain anchor uo fr = true ->
   nth_error (fst (chunk_base uo maxi eff fr)) j = Some row ->
   nth_error (snd (centroid_chunk fixed anchor uo maxi eff s fr)) j = Some c ->
   (c = None <-> all_missing row = true).
-Proof. exact centroid_chunk_missing_iff_l. Qed.
+Proof. exact centroid_chunk_missing_iff_dom_l. Qed.
 Print Assumptions centroid_chunk_missing_iff.
 
 (* centered_instance_data_chunks: one crop per non-empty considered instance, in label order,
    holding that label's keypoints x eff_scale, cut around its own (present) centroid *)
 Theorem centered_chunk_crops : forall anchor uo maxi eff fr,
+  lf_domain uo fr = true -> chunk_anchor_domain anchor uo fr = true ->
   let labs := filter nonempty (considered uo fr) in
   let cs := centered_chunk true anchor uo maxi eff fr in
-  length cs = length labs /\
+  length cs = length labs /\ (0 < length cs)%nat /\
   (forall j lab, nth_error labs j = Some lab ->
      exists c, nth_error cs j = Some (c, map (scale_kp eff) lab) /\ c <> None /\
                c = fst (gen_centroid true anchor (map (scale_kp eff) lab))).
-Proof. exact centered_chunk_l. Qed.
+Proof. exact centered_chunk_dom_l. Qed.
 Print Assumptions centered_chunk_crops.
 
 Example ex_centroid_chunk :
@@ -515,3 +717,13 @@ Example ex_centroid_chunk :
     [mklinst true [None; Some (QArith_base.Qmake 4%Z 1%positive, QArith_base.Qmake 6%Z 1%positive)];
      mklinst true [None; None]]) = 1%nat.
 Proof. split; [vm_compute; discriminate|reflexivity]. Qed.
+Example ex_chunk_domain :
+  lf_domain true [mklinst true [None; Some (QArith_base.Qmake 4%Z 1%positive, QArith_base.Qmake 6%Z 1%positive)];
+                  mklinst false [None; None]] = true /\
+  chunk_anchor_domain (Some 1%nat) true
+    [mklinst true [None; Some (QArith_base.Qmake 4%Z 1%positive, QArith_base.Qmake 6%Z 1%positive)]] = true /\
+  lf_domain true [mklinst true [None; None];
+                  mklinst false [Some (QArith_base.Qmake 1%Z 1%positive, QArith_base.Qmake 1%Z 1%positive); None]] = false /\
+  chunk_anchor_domain (Some 2%nat) true
+    [mklinst true [None; Some (QArith_base.Qmake 4%Z 1%positive, QArith_base.Qmake 6%Z 1%positive)]] = false.
+Proof. repeat split; reflexivity. Qed.
